@@ -79,4 +79,9 @@ macro "c07_eval" "[" extra:Lean.Parser.Tactic.simpLemma,* "]" : tactic =>
   `(tactic| simp [val, cellEnv, Cell.J, edgeVerts, fact, C06.ForAll, C06.allComps, C06.S, C06.kron, eval, evalNth, gradChain, mathName, fi, shape, sumRange, FI.dimOf, FI.insert, FI.merge, FI.remove,
       idxPairs, freeCounts, List.range, List.range.loop, IdxEnv.bind, IdxEnv.set, Idx.resolve, List.zipIdx, $extra,*])
 
+/-- same, keeping nested `if a < b then a else b` (the semantics of min_value / max_value) intact -/
+macro "c07_eval_mm" "[" extra:Lean.Parser.Tactic.simpLemma,* "]" : tactic =>
+  `(tactic| simp [-min_lt_iff, -lt_min_iff, -lt_max_iff, -max_lt_iff, val, cellEnv, Cell.J, edgeVerts, fact, C06.ForAll, C06.allComps, C06.S, C06.kron, eval, evalNth, gradChain, mathName, fi, shape, sumRange, FI.dimOf, FI.insert, FI.merge, FI.remove,
+      idxPairs, freeCounts, List.range, List.range.loop, IdxEnv.bind, IdxEnv.set, Idx.resolve, List.zipIdx, $extra,*])
+
 end UflVerif.C07
